@@ -376,6 +376,7 @@ def build_node(spec: dict, gi: int, graphs: list[Any], env: Env, *, async_bodies
             output_name=_tuple_or_none(spec.get("dataOuts", [])),
             rename_inputs=in_ren,
             cache=spec.get("cache", False),
+            hide=bool(spec.get("hide", False)),
             emit=emits,
             wait_for=wait_for,
         )
@@ -421,7 +422,10 @@ def build_node(spec: dict, gi: int, graphs: list[Any], env: Env, *, async_bodies
     if kind == "graph":
         # every intermediate object of the derivation chain is USED (placed in a graph, queried) before the next derivation, as user code
         # that keeps and reuses intermediate wrappers does; derived objects must not inherit anything stale from that use
-        gn = graphs[spec["inner"]].as_node(name=spec["name"])
+        if spec.get("nameVia") == "with_name":
+            gn = graphs[spec["inner"]].as_node().with_name(spec["name"])      # the name given AFTER wrapping
+        else:
+            gn = graphs[spec["inner"]].as_node(name=spec["name"])
         if in_ren:
             _exercise(gn, env, run=True)
             gn = gn.with_inputs(in_ren)
